@@ -754,8 +754,8 @@ func TestCheck(t *testing.T) {
 		},
 	}
 	pbt.Add(s, &pbt.Spec[vfGenCase31]{Name: "parse", Gen: vfGenParse, Run: vfRunParseGen, Static: vfStaticParse,
-		Quick: 48000, Thorough: 2400000, Shards: 8, Timeout: 10 * time.Minute})
+		Quick: 200000, Thorough: 8000000, Shards: 8, Timeout: 10 * time.Minute})
 	pbt.Add(s, &pbt.Spec[vfConnCase]{Name: "conn", Gen: vfGenConn, Run: vfRunConn,
-		Quick: 4000, Thorough: 200000, Shards: 4, Timeout: 10 * time.Minute})
+		Quick: 10000, Thorough: 300000, Shards: 4, Timeout: 10 * time.Minute})
 	s.Main(t)
 }
